@@ -166,6 +166,25 @@ struct Runner
 		&& !std::is_nothrow_default_constructible<Cnt<16, 8>>::value, "instrumented items may throw");
 	static_assert(std::is_trivially_copyable<B3>::value && std::is_trivially_copyable<A16>::value && alignof(A16) == 16 && alignof(long double) == 16, "POD items");
 
+	// ---- observation of createFunc / destroyFunc calls per FuncRecord (tie of the generated pvCreateRaw, Gen_Raw.v):
+	// the function pointers of a COPY of the list are replaced by trampolines that call the originals and count
+	typedef typename CL::ColumnRecord ColumnRecord;
+	inline static const CL* trList = nullptr;
+	inline static std::vector<typename CL::CreateFunc> trCreate;
+	inline static std::vector<typename CL::DestroyFunc> trDestroy;
+	inline static std::vector<int> trCreated, trDestroyed;
+	static size_t recIndex(const ColumnRecord* cols)
+	{
+		size_t ci = size_t(cols - trList->mColumns.GetItems());
+		for (size_t r = 0; r < trList->mFuncRecords.GetCount(); ++r) if (trList->mFuncRecords.GetItems()[r].columnIndex == ci) return r;
+		std::abort();
+	}
+	static void trampCreate(MM& mm, const ColumnRecord* cols, const CL* src, const void* sraw, void* raw)
+		{ size_t r = recIndex(cols); trCreate[r](mm, cols, src, sraw, raw); ++trCreated[r]; }
+	static void trampDestroy(MM* mm, const ColumnRecord* cols, void* raw)
+		{ size_t r = recIndex(cols); trDestroy[r](mm, cols, raw); ++trDestroyed[r]; }
+	std::string funcTrace;
+
 	CL** ctorTarget = nullptr;   // non-null: the next addGroup constructs a list with DataColumnList(column, columns...)
 
 	std::string problem;     // harness-level problem (bad type table, unsupported group, ...)
@@ -367,6 +386,31 @@ struct Runner
 			A.CreateRaw(mm, a.p); A.DestroyRaw(&mm, a.p);
 			evTrace = "n:" + trace(a.p);
 		}
+		{	// per-FuncRecord createFunc / destroyFunc counts of pvCreateRaw, without and with the k-th instrumented construction throwing
+			CL T(A);
+			size_t nrec = T.mFuncRecords.GetCount();
+			trList = &T; trCreate.assign(nrec, nullptr); trDestroy.assign(nrec, nullptr);
+			for (size_t r = 0; r < nrec; ++r)
+			{
+				auto& fr = T.mFuncRecords.GetItems()[r];
+				trCreate[r] = fr.createFunc; trDestroy[r] = fr.destroyFunc;
+				fr.createFunc = &trampCreate; fr.destroyFunc = &trampDestroy;
+			}
+			for (long k = -1; k < long(cntA); ++k)
+			{
+				R().reset(); R().failAt = k; trCreated.assign(nrec, 0); trDestroyed.assign(nrec, 0);
+				RawBuf a(A.GetTotalSize(), A.GetAlignment());
+				bool completed = true;
+				try { T.CreateRaw(mm, a.p); } catch (const std::domain_error&) { completed = false; }
+				funcTrace += (k < 0 ? std::string("n:") : " | " + std::to_string(k) + ":") + (completed ? "T" : "F") + " c";
+				for (int v : trCreated) funcTrace += " " + std::to_string(v);
+				funcTrace += " d";
+				for (int v : trDestroyed) funcTrace += " " + std::to_string(v);
+				if (completed) A.DestroyRaw(&mm, a.p);
+				if (!R().live.empty()) fail("function-record run: items left alive");
+			}
+			trList = nullptr; R().reset();
+		}
 		// injected construction failures: whatever was constructed is destroyed again, exactly once
 		for (size_t k = 0; k < cntA; ++k)
 		{
@@ -483,7 +527,7 @@ struct Runner
 			CL cl3(std::move(cl2)); dump(cl3, 'C', added, universe, o3);
 			if (o1 != o3) fail("move-constructed column list differs");
 		}
-		out += " ; raw " + (rawErr.empty() ? std::string("ok") : "FAIL " + rawErr) + " ; ev " + evTrace;
+		out += " ; raw " + (rawErr.empty() ? std::string("ok") : "FAIL " + rawErr) + " ; ev " + evTrace + " ; fr " + funcTrace;
 		if (failing) out += " ; af " + (afErr.empty() ? std::string("ok") : "FAIL " + afErr);
 		if (failing) fprintf(stderr, "af %zu\n", afCount);
 		fprintf(stderr, "inj %zu\n", injected);
